@@ -138,7 +138,7 @@ pub fn specs() -> Vec<PropSpec> {
         },
         PropSpec {
             id: "C06",
-            parts: &[("c06", 480, 6000)],
+            parts: &[("c06", 480, 6000), ("c07fail", 320, 4000)],
             level: "exploration",
             tags: &["C06"],
             rule: "Each evaluation is one seeded history (C01 workload with \
@@ -333,7 +333,7 @@ pub fn specs() -> Vec<PropSpec> {
         },
         PropSpec {
             id: "C19",
-            parts: &[("c19", 320, 6000)],
+            parts: &[("c19", 320, 6000), ("c19net", 160, 3000)],
             level: "exploration",
             tags: &["C19"],
             rule: "Each evaluation is one seeded history of 15-45 \
@@ -357,8 +357,21 @@ pub fn specs() -> Vec<PropSpec> {
                 success record for a child that just synchronised \
                 successfully; at every restart and snapshot point the \
                 status view of a runtime loaded afresh from the same \
-                storage must equal the live one. Non-trivial/distinct as \
-                for C01.",
+                storage must equal the live one. Entitlements: before \
+                every background task the harness notes which CAs have \
+                open requests for which parent; after a synchronisation \
+                that asked for the entitlements and succeeded, the \
+                classes in the status view must equal what the parent CA \
+                returns for that child (CertAuth::list on the parent's \
+                instance: class names, resources, validity, issued \
+                certificates), and after an attempt that failed or only \
+                sent open requests the classes shown must be unchanged. \
+                Part c19net runs the same oracle on two instances joined \
+                by the simulated network (CAs on either instance with \
+                parents and repository on the other), where exchanges \
+                also fail because requests or replies are lost, are \
+                delivered twice, the other instance is down or the link \
+                is cut. Non-trivial/distinct as for C01.",
             assumptions: COMMON_ASSUMPTIONS,
         },
         PropSpec {
@@ -433,7 +446,7 @@ pub fn specs() -> Vec<PropSpec> {
         },
         PropSpec {
             id: "C07",
-            parts: &[("c07", 320, 8000), ("c18", 96, 2000)],
+            parts: &[("c07", 320, 8000), ("c18", 96, 2000), ("c07fail", 320, 4000)],
             level: "exploration",
             tags: &["C07"],
             rule: "Each evaluation is one seeded concurrent scenario on the \
@@ -631,6 +644,21 @@ pub fn run_profile(
         let res = std::thread::Builder::new()
             .stack_size(32 * 1024 * 1024)
             .spawn(move || crate::c10::run(seed))
+            .expect("spawn").join();
+        return match res {
+            Ok(report) => report,
+            Err(p) => RunReport {
+                seed,
+                profile: name.to_string(),
+                harness_error: Some(crate::util::panic_message(&p)),
+                ..Default::default()
+            }
+        }
+    }
+    if name == "c07fail" {
+        let res = std::thread::Builder::new()
+            .stack_size(32 * 1024 * 1024)
+            .spawn(move || crate::c07f::run(seed))
             .expect("spawn").join();
         return match res {
             Ok(report) => report,
